@@ -1,6 +1,1171 @@
-//! C06 — monitor not built yet.
-use crate::core::Ctx;
+//! C06 — signature completeness: what any signing API signs, every verify API accepts.
+//!
+//! Matrix monitor. For every payload the signature is made through each signing interface
+//!   S1 DetachedSignature::sign_binary_data      S2 DetachedSignature::sign_text_data
+//!   S3 SignatureConfig::sign(reader) Binary/Text S4 SignatureConfig::into_hasher + io::Write + SignatureHasher::sign
+//!   S5 MessageBuilder::sign (binary/text, 1-3 signers, +-compression, +-SEIPDv1/v2, bytes/reader source)
+//!   S6 CleartextSignedMessage::{sign,new}        S6many CleartextSignedMessage::new_many
+//!   S7 key builder self-signatures (+ SignatureConfig::sign_key direct-key signature)
+//! and verified through every applicable verification interface
+//!   V1 Signature::verify(reader)   V2 DetachedSignature::verify   V3 armor -> from_string -> verify
+//!   V4 / V4armor Message parse -> (decrypt) -> (decompress) -> read -> verify*/verify_read
+//!   V5 / V5armor CleartextSignedMessage::verify / verify_many (directly, after armor round trip)
+//!   V6 / V6armor / V6bytes verify_bindings (directly, after armor / binary export + import)
+//!   V7 cross interface: message signature extracted and verified as detached signature;
+//!      detached signature spliced in front of a literal packet and verified as a message.
+//! Every verification must be Ok. The oracle is agreement of two library paths (the property is
+//! about agreement); the digests themselves are checked against the RFC reference by C11/C14.
+
+use std::collections::HashSet;
+use std::fmt::Display;
+use std::io::{Read, Write};
+
+use pgp::composed::{
+    ArmorOptions, CleartextSignedMessage, Deserializable, DetachedSignature, Encryption,
+    KeyType, Message, MessageBuilder, PlainSessionKey, RawSessionKey, SecretKeyParamsBuilder,
+    SignedPublicKey, SignedSecretKey, SubkeyParamsBuilder, VerificationResult,
+};
+use pgp::crypto::aead::{AeadAlgorithm, ChunkSize};
+use pgp::crypto::hash::HashAlgorithm;
+use pgp::crypto::sym::SymmetricKeyAlgorithm;
+use pgp::packet::{
+    DataMode, Signature, SignatureConfig, SignatureType, Subpacket, SubpacketData,
+};
+use pgp::ser::Serialize;
+use pgp::types::{CompressionAlgorithm, KeyDetails, KeyVersion, Password, Timestamp};
+use rand::{Rng, RngCore};
+use rand_chacha::ChaCha8Rng;
+use serde_json::{json, Value};
+
+use crate::core::{self, hexs, Ctx};
+use crate::hooks;
+use crate::rfc;
+use crate::shim::{chunks_by_splits, composition_splits, Sched, SchedReader};
+use crate::zoo::{self, Alg, Spec};
+
+const CR: u8 = b'\r';
+const LF: u8 = b'\n';
+const HASHES: [HashAlgorithm; 3] = [HashAlgorithm::Sha256, HashAlgorithm::Sha512, HashAlgorithm::Sha3_256];
+
+/// Full list of matrix cells the workload exercises (also in meta/C06.json required_sets).
+pub const CELLS: [&str; 38] = [
+    "S1->V1", "S1->V2", "S1->V3", "S1->V7",
+    "S2->V1", "S2->V2", "S2->V3", "S2->V7",
+    "S3bin->V1", "S3bin->V2", "S3bin->V3", "S3bin->V7",
+    "S3text->V1", "S3text->V2", "S3text->V3", "S3text->V7",
+    "S4bin->V1", "S4bin->V2", "S4bin->V3", "S4bin->V7",
+    "S4text->V1", "S4text->V2", "S4text->V3", "S4text->V7",
+    "S5bin->V4", "S5bin->V4armor", "S5bin->V7",
+    "S5text->V4", "S5text->V4armor", "S5text->V7",
+    "S6->V1", "S6->V5", "S6->V5armor", "S6many->V5", "S6many->V5armor",
+    "S7->V6", "S7->V6armor", "S7->V6bytes",
+];
+
+// ------------------------------------------------------------------------------------------
+// payload classes (stable strings used in violation signatures)
+
+/// A line's content (text before its "\r\n" / "\n", or the last line up to the end of the text)
+/// ends in SP or TAB — exactly what the cleartext framework trims.
+fn has_trailing_blank(p: &[u8]) -> bool {
+    for line in p.split_inclusive(|b| *b == LF) {
+        let content = if line.ends_with(b"\r\n") {
+            &line[..line.len() - 2]
+        } else if line.ends_with(b"\n") {
+            &line[..line.len() - 1]
+        } else {
+            line
+        };
+        if matches!(content.last(), Some(b' ') | Some(b'\t')) {
+            return true;
+        }
+    }
+    false
+}
+
+fn has_leading_dash(p: &[u8]) -> bool {
+    p.iter().enumerate().any(|(i, b)| *b == b'-' && (i == 0 || p[i - 1] == LF))
+}
+
+/// First matching class wins.
+fn class(p: &[u8]) -> &'static str {
+    if p.is_empty() {
+        "empty"
+    } else if has_trailing_blank(p) {
+        "trailing-blank-line-end"
+    } else if p.last() == Some(&CR) {
+        "trailing-lone-CR"
+    } else if has_leading_dash(p) {
+        "leading-dash"
+    } else if p.contains(&0) {
+        "has-NUL"
+    } else if std::str::from_utf8(p).is_err() {
+        "non-UTF8"
+    } else {
+        "other"
+    }
+}
+
+// ------------------------------------------------------------------------------------------
+// keys
+
+struct K {
+    name: &'static str,
+    sk: SignedSecretKey,
+    pk: SignedPublicKey,
+}
+
+impl K {
+    fn new(name: &'static str, spec: &Spec) -> K {
+        let sk = zoo::key(spec, 0);
+        let pk = sk.to_public_key();
+        K { name, sk, pk }
+    }
+    fn v6(&self) -> bool {
+        self.sk.primary_key.version() == KeyVersion::V6
+    }
+}
+
+struct Env {
+    /// 0: v4 Ed25519Legacy, 1: v6 Ed25519, 2: v4 ECDSA P-256, 3: v4 RSA-2048
+    keys: Vec<K>,
+    ts: Timestamp,
+}
+
+/// Per payload x key report context
+struct Rep<'a> {
+    p: &'a [u8],
+    cls: &'static str,
+    key: &'static str,
+    hash: HashAlgorithm,
+    cfg: String,
+    family: &'static str,
+    hooks: bool,
+}
+
+impl Rep<'_> {
+    fn replay(&self, cell: &str) -> Value {
+        json!({
+            "family": self.family,
+            "cell": cell,
+            "payload": hexs(self.p),
+            "payload_len": self.p.len(),
+            "key": self.key,
+            "hash": format!("{:?}", self.hash),
+            "cfg": self.cfg,
+        })
+    }
+    fn show(&self) -> String {
+        let n = self.p.len().min(48);
+        format!(
+            "payload[{}]={:?}{} key={} hash={:?} {}",
+            self.p.len(),
+            String::from_utf8_lossy(&self.p[..n]),
+            if self.p.len() > n { "..." } else { "" },
+            self.key,
+            self.hash,
+            self.cfg
+        )
+    }
+}
+
+/// A verification result of matrix cell s->v: must be Ok.
+fn ok<T, E: Display>(ctx: &mut Ctx, rep: &Rep, s: &str, v: &str, r: Result<T, E>) -> Option<T> {
+    ctx.eval();
+    let cell = format!("{s}->{v}");
+    let out = match r {
+        Ok(t) => Some(t),
+        Err(e) => {
+            ctx.violation(
+                format!("C06/{cell}/rejected/{}", rep.cls),
+                format!("signature made by {s} rejected by {v}: {e}; {}", rep.show()),
+                rep.replay(&cell),
+            );
+            None
+        }
+    };
+    ctx.seen("matrix", cell);
+    out
+}
+
+/// Result of a signing call: must be Ok.
+fn signed<T, E: Display>(ctx: &mut Ctx, rep: &Rep, s: &str, r: Result<T, E>) -> Option<T> {
+    ctx.eval();
+    match r {
+        Ok(t) => Some(t),
+        Err(e) => {
+            ctx.violation(
+                format!("C06/{s}/sign-error/{}", rep.cls),
+                format!("signing through {s} failed: {e}; {}", rep.show()),
+                rep.replay(s),
+            );
+            None
+        }
+    }
+}
+
+/// Result of serialising / re-parsing the library's own artefact on the way to cell s->v.
+fn parsed<T, E: Display>(ctx: &mut Ctx, rep: &Rep, s: &str, v: &str, what: &str, r: Result<T, E>) -> Option<T> {
+    match r {
+        Ok(t) => Some(t),
+        Err(e) => {
+            let cell = format!("{s}->{v}");
+            ctx.violation(
+                format!("C06/{cell}/{what}/{}", rep.cls),
+                format!("{what} of the artefact signed by {s} on the way to {v}: {e}; {}", rep.show()),
+                rep.replay(&cell),
+            );
+            None
+        }
+    }
+}
+
+fn mk_config(env: &Env, k: &K, typ: SignatureType, hash: HashAlgorithm, rng: &mut ChaCha8Rng, rot: u64) -> pgp::errors::Result<SignatureConfig> {
+    let alg = k.sk.primary_key.algorithm();
+    let mut c = if k.v6() {
+        SignatureConfig::v6(&mut *rng, typ, alg, hash)?
+    } else {
+        SignatureConfig::v4(typ, alg, hash)
+    };
+    c.hashed_subpackets = vec![
+        Subpacket::regular(SubpacketData::SignatureCreationTime(env.ts))?,
+        Subpacket::regular(SubpacketData::IssuerFingerprint(k.sk.primary_key.fingerprint()))?,
+    ];
+    if !k.v6() && rot % 2 == 0 {
+        c.unhashed_subpackets = vec![Subpacket::regular(SubpacketData::IssuerKeyId(k.sk.primary_key.legacy_key_id()))?];
+    }
+    Ok(c)
+}
+
+fn literal_packet(p: &[u8]) -> Vec<u8> {
+    // RFC 9580 5.9: format 'b', empty file name, date 0, data
+    let mut body = vec![b'b', 0, 0, 0, 0, 0];
+    body.extend_from_slice(p);
+    rfc::frame::frame(11, &body, &rfc::frame::LenForm::NewMin).expect("literal frame")
+}
+
+fn sched_for(rot: u64) -> Sched {
+    match rot % 5 {
+        0 => Sched::All,
+        1 => Sched::Fixed(1),
+        2 => Sched::Cycle(vec![511, 1, 2, 8191, 1]),
+        3 => Sched::Random(rot, 700),
+        _ => Sched::Fixed(7),
+    }
+}
+
+/// V1, V2, V3 and V7 (prefixed-signature message) for one detached signature.
+fn verify_detached(ctx: &mut Ctx, rep: &Rep, s: &str, sig: &Signature, k: &K, rot: u64) {
+    let p = rep.p;
+    // V1 Signature::verify over a reader with an I/O schedule
+    let sched = sched_for(rot);
+    if rep.hooks {
+        let (r, ev) = hooks::record(|| sig.verify(&k.pk.primary_key, SchedReader::new(p.to_vec(), sched)));
+        for e in &ev {
+            if e.site == "norm.rd.window" {
+                let arm = match (e.b as u8, e.c as u8, e.a > 0) {
+                    (CR, LF, true) => "CR|LF",
+                    (CR, _, _) => "CR|other",
+                    _ => "none",
+                };
+                ctx.seen("hook.norm.rd.window.arm", arm);
+            }
+        }
+        ok(ctx, rep, s, "V1", r);
+    } else {
+        ok(ctx, rep, s, "V1", sig.verify(&k.pk.primary_key, SchedReader::new(p.to_vec(), sched)));
+    }
+
+    // V2 DetachedSignature::verify (SignedPublicKey as the verifying key)
+    let ds = DetachedSignature::new(sig.clone());
+    ok(ctx, rep, s, "V2", ds.verify(&k.pk, p));
+
+    // V3 armor round trip
+    if let Some(arm) = parsed(ctx, rep, s, "V3", "armor-error", ds.to_armored_string(ArmorOptions::default())) {
+        if let Some((ds2, _)) = parsed(ctx, rep, s, "V3", "parse-error", DetachedSignature::from_string(&arm)) {
+            ok(ctx, rep, s, "V3", ds2.verify(&k.pk.primary_key, p));
+        }
+    }
+
+    // V7 [signature][literal] as a prefixed-signature message
+    if let Some(mut bytes) = parsed(ctx, rep, s, "V7", "serialize-error", ds.to_bytes()) {
+        bytes.extend_from_slice(&literal_packet(p));
+        if let Some(mut m) = parsed(ctx, rep, s, "V7", "parse-error", Message::from_bytes(&bytes[..])) {
+            if let Some(data) = parsed(ctx, rep, s, "V7", "read-error", m.as_data_vec()) {
+                if data != p {
+                    ctx.violation(format!("C06/{s}->V7/data-mismatch/{}", rep.cls), format!("literal data changed; {}", rep.show()), rep.replay("V7"));
+                }
+                ok(ctx, rep, s, "V7", m.verify(&k.pk.primary_key));
+            }
+        }
+    }
+}
+
+// ------------------------------------------------------------------------------------------
+// S1..S4
+
+fn s1_s4(ctx: &mut Ctx, env: &Env, rep: &Rep, k: &K, rng: &mut ChaCha8Rng, rot: u64) {
+    let p = rep.p;
+    let pw = Password::empty();
+    let hash = rep.hash;
+
+    // S1
+    if let Some(ds) = signed(ctx, rep, "S1", DetachedSignature::sign_binary_data(&mut *rng, &k.sk.primary_key, &pw, hash, p)) {
+        verify_detached(ctx, rep, "S1", &ds.signature, k, rot);
+    }
+    // S2
+    let src = SchedReader::new(p.to_vec(), sched_for(rot + 2));
+    if let Some(ds) = signed(ctx, rep, "S2", DetachedSignature::sign_text_data(&mut *rng, &k.sk.primary_key, &pw, hash, src)) {
+        verify_detached(ctx, rep, "S2", &ds.signature, k, rot + 1);
+    }
+    // S3 / S4
+    for (typ, tn) in [(SignatureType::Binary, "bin"), (SignatureType::Text, "text")] {
+        let s3 = format!("S3{tn}");
+        let r = mk_config(env, k, typ, hash, rng, rot).and_then(|c| {
+            c.sign(&k.sk.primary_key, &pw, SchedReader::new(p.to_vec(), sched_for(rot + 3)))
+        });
+        if let Some(sig) = signed(ctx, rep, &s3, r) {
+            verify_detached(ctx, rep, &s3, &sig, k, rot + 2);
+        }
+
+        let s4 = format!("S4{tn}");
+        // chunking of the writes: a composition chosen by rot for short payloads, random sizes above
+        let splits: Vec<usize> = if p.len() <= 40 {
+            let bits = p.len().saturating_sub(1);
+            let mask = if bits == 0 { 0 } else { rng.gen::<u64>() & ((1u64 << bits) - 1) };
+            match rot % 3 {
+                0 => composition_splits(p.len(), mask),
+                1 => composition_splits(p.len(), if bits == 0 { 0 } else { (1u64 << bits) - 1 }), // bytewise
+                _ => composition_splits(p.len(), 0),
+            }
+        } else {
+            let mut v = vec![];
+            let mut pos = 0usize;
+            loop {
+                pos += match rot % 3 {
+                    0 => rng.gen_range(1..=1024usize),
+                    1 => [511usize, 1, 512, 8191, 1][v.len() % 5],
+                    _ => 8192,
+                };
+                if pos >= p.len() {
+                    break;
+                }
+                v.push(pos);
+            }
+            v
+        };
+        let r = mk_config(env, k, typ, hash, rng, rot + 1).and_then(|c| {
+            let mut h = c.into_hasher()?;
+            for c in chunks_by_splits(p, &splits) {
+                h.write_all(c)?;
+            }
+            h.flush()?;
+            h.sign(&k.sk.primary_key, &pw)
+        });
+        if let Some(sig) = signed(ctx, rep, &s4, r) {
+            verify_detached(ctx, rep, &s4, &sig, k, rot + 3);
+        }
+    }
+}
+
+// ------------------------------------------------------------------------------------------
+// S5 message builder
+
+#[derive(Clone, Debug)]
+struct MsgCfg {
+    name: &'static str,
+    nsig: usize,
+    comp: Option<CompressionAlgorithm>,
+    /// 0 none, 1 SEIPDv1, 2 SEIPDv2
+    enc: u8,
+    reader: bool,
+    utf8: bool,
+}
+
+fn msg_cfgs() -> Vec<MsgCfg> {
+    let c = |name, nsig, comp, enc, reader, utf8| MsgCfg { name, nsig, comp, enc, reader, utf8 };
+    vec![
+        c("plain-1", 1, None, 0, false, false),
+        c("plain-2", 2, None, 0, false, false),
+        c("zip-1", 1, Some(CompressionAlgorithm::ZIP), 0, false, false),
+        c("seipd1-1", 1, None, 1, false, false),
+        c("seipd2-2", 2, None, 2, false, false),
+        c("zlib-3", 3, Some(CompressionAlgorithm::ZLIB), 0, false, false),
+        c("reader-1", 1, None, 0, true, false),
+        c("utf8-1", 1, None, 0, false, true),
+        c("reader-seipd2-zip-2", 2, Some(CompressionAlgorithm::ZIP), 2, true, false),
+        c("seipd1-zlib-3", 3, Some(CompressionAlgorithm::ZLIB), 1, false, false),
+        c("plain-3", 3, None, 0, false, false),
+        c("reader-utf8-2", 2, None, 0, true, true),
+    ]
+}
+
+enum Out {
+    Bin(Vec<u8>),
+    Arm(String),
+}
+
+fn finish<'a, R: Read, E: Encryption>(
+    mut b: MessageBuilder<'a, R, E>,
+    cfg: &MsgCfg,
+    text: bool,
+    signers: &[(&'a K, HashAlgorithm)],
+    armored: bool,
+    rng: &mut ChaCha8Rng,
+) -> pgp::errors::Result<Out> {
+    if cfg.utf8 {
+        b.data_mode(DataMode::Utf8)?;
+    }
+    if cfg.reader {
+        b.partial_chunk_size(512)?;
+    }
+    if text {
+        b.sign_text();
+    } else {
+        b.sign_binary();
+    }
+    if let Some(c) = cfg.comp {
+        b.compression(c);
+    }
+    for (k, h) in signers {
+        b.sign(&k.sk.primary_key, Password::empty(), *h);
+    }
+    if armored {
+        Ok(Out::Arm(b.to_armored_string(&mut *rng, ArmorOptions::default())?))
+    } else {
+        Ok(Out::Bin(b.to_vec(&mut *rng)?))
+    }
+}
+
+fn build_msg<'a>(
+    p: &[u8],
+    cfg: &MsgCfg,
+    text: bool,
+    signers: &[(&'a K, HashAlgorithm)],
+    armored: bool,
+    rng: &mut ChaCha8Rng,
+) -> pgp::errors::Result<(Out, Option<PlainSessionKey>)> {
+    let mut raw = vec![0u8; if cfg.enc == 2 { 32 } else { 16 }];
+    rng.fill_bytes(&mut raw);
+    let sess = match cfg.enc {
+        1 => Some(PlainSessionKey::V3_4 { sym_alg: SymmetricKeyAlgorithm::AES128, key: RawSessionKey::from(raw.clone()) }),
+        2 => Some(PlainSessionKey::V6 { key: RawSessionKey::from(raw.clone()) }),
+        _ => None,
+    };
+    let rk = RawSessionKey::from(raw);
+    let out = if cfg.reader {
+        let src = SchedReader::new(p.to_vec(), Sched::Cycle(vec![511, 1, 2, 700, 8192]));
+        let b = MessageBuilder::from_reader("", src);
+        match cfg.enc {
+            0 => finish(b, cfg, text, signers, armored, rng)?,
+            1 => {
+                let mut b = b.seipd_v1(&mut *rng, SymmetricKeyAlgorithm::AES128);
+                b.set_session_key(rk)?;
+                finish(b, cfg, text, signers, armored, rng)?
+            }
+            _ => {
+                let mut b = b.seipd_v2(&mut *rng, SymmetricKeyAlgorithm::AES256, AeadAlgorithm::Ocb, ChunkSize::default());
+                b.set_session_key(rk)?;
+                finish(b, cfg, text, signers, armored, rng)?
+            }
+        }
+    } else {
+        let b = MessageBuilder::from_bytes("", p.to_vec());
+        match cfg.enc {
+            0 => finish(b, cfg, text, signers, armored, rng)?,
+            1 => {
+                let mut b = b.seipd_v1(&mut *rng, SymmetricKeyAlgorithm::AES128);
+                b.set_session_key(rk)?;
+                finish(b, cfg, text, signers, armored, rng)?
+            }
+            _ => {
+                let mut b = b.seipd_v2(&mut *rng, SymmetricKeyAlgorithm::AES256, AeadAlgorithm::Ocb, ChunkSize::default());
+                b.set_session_key(rk)?;
+                finish(b, cfg, text, signers, armored, rng)?
+            }
+        }
+    };
+    Ok((out, sess))
+}
+
+fn open_msg<'a>(out: &'a Out, sess: &Option<PlainSessionKey>) -> Result<Message<'a>, String> {
+    let mut m = match out {
+        Out::Bin(b) => Message::from_bytes(&b[..]).map_err(|e| format!("from_bytes: {e}"))?,
+        Out::Arm(s) => Message::from_string(s).map_err(|e| format!("from_string: {e}"))?.0,
+    };
+    if m.is_encrypted() {
+        let Some(sk) = sess.clone() else {
+            return Err("message is encrypted but the builder was not asked to encrypt".into());
+        };
+        m = m.decrypt_with_session_key(sk).map_err(|e| format!("decrypt: {e}"))?;
+    }
+    if m.is_compressed() {
+        m = m.decompress().map_err(|e| format!("decompress: {e}"))?;
+    }
+    Ok(m)
+}
+
+#[allow(clippy::too_many_arguments)]
+fn s5_one(ctx: &mut Ctx, env: &Env, rep: &mut Rep, k: &K, cfg: &MsgCfg, text: bool, armored: bool, rng: &mut ChaCha8Rng, rot: u64) {
+    let p = rep.p;
+    let s = if text { "S5text" } else { "S5bin" };
+    let v = if armored { "V4armor" } else { "V4" };
+    let mut cfg = cfg.clone();
+    // Utf8 literal mode demands valid UTF-8 with CRLF-only line ends (documented Err otherwise, C14
+    // checks that predicate): fall back to Binary literal mode, which is allowed with Text signatures.
+    let utf8_ok = std::str::from_utf8(p).is_ok() && p.iter().enumerate().all(|(i, b)| *b != LF || (i > 0 && p[i - 1] == CR));
+    if cfg.utf8 && !utf8_ok {
+        cfg.utf8 = false;
+        ctx.tally("S5.utf8-mode-not-applicable", 1);
+    }
+    // signers: this key first, then keys of other versions / algorithms
+    let mut signers: Vec<(&K, HashAlgorithm)> = vec![(k, rep.hash)];
+    for (j, other) in env.keys.iter().enumerate().take(3) {
+        if signers.len() >= cfg.nsig {
+            break;
+        }
+        if other.name != k.name {
+            signers.push((other, HASHES[(rot as usize + j) % 3]));
+        }
+    }
+    rep.cfg = format!("msg={}{} typ={} out={}", cfg.name, if cfg.utf8 { "(Utf8 literal)" } else { "" }, if text { "text" } else { "binary" }, if armored { "armor" } else { "bytes" });
+    ctx.seen("S5.config", format!("{}/{}/{}", cfg.name, if text { "text" } else { "binary" }, if armored { "armor" } else { "bytes" }));
+    if cfg.utf8 {
+        ctx.tally("S5.utf8-literal-mode", 1);
+    }
+
+    let Some((out, sess)) = signed(ctx, rep, s, build_msg(p, &cfg, text, &signers, armored, rng)) else {
+        return;
+    };
+    ctx.evals_add(signers.len() as u64 - 1);
+
+    let Some(mut m) = parsed(ctx, rep, s, v, "parse-error", open_msg(&out, &sess)) else {
+        return;
+    };
+    let Some(data) = parsed(ctx, rep, s, v, "read-error", m.as_data_vec()) else {
+        return;
+    };
+    if data != p {
+        ctx.violation(format!("C06/{s}->{v}/data-mismatch/{}", rep.cls), format!("message payload changed; {}", rep.show()), rep.replay(v));
+        return;
+    }
+    // Message::verify checks the first signature: signer 0
+    ok(ctx, rep, s, v, m.verify(&signers[0].0.pk.primary_key));
+    // every signer must verify at some signature index
+    let nsig = match &m {
+        Message::Signed { reader, .. } => reader.num_signatures(),
+        _ => 0,
+    };
+    if nsig != signers.len() {
+        ctx.violation(
+            format!("C06/{s}->{v}/signature-count/{}", rep.cls),
+            format!("message carries {nsig} signatures, {} signers were configured; {}", signers.len(), rep.show()),
+            rep.replay(v),
+        );
+    }
+    for (i, (sk, _)) in signers.iter().enumerate() {
+        let mut found = None;
+        let mut last_err = String::new();
+        for j in 0..nsig {
+            match m.verify_nested_explicit(j, &sk.pk.primary_key) {
+                Ok(_) => {
+                    found = Some(j);
+                    break;
+                }
+                Err(e) => last_err = e.to_string(),
+            }
+        }
+        if found == Some(i) {
+            ctx.tally("S5.signature-index-equals-signer-index", 1);
+        }
+        ok(ctx, rep, s, v, found.ok_or(format!("verify_nested_explicit: signer {i} ({}) verifies at no index: {last_err}", sk.name)));
+    }
+    {
+        let keys: Vec<&dyn pgp::types::VerifyingKey> = signers.iter().map(|(sk, _)| &sk.pk.primary_key as &dyn pgp::types::VerifyingKey).collect();
+        let r = m.verify_nested(&keys).map_err(|e| e.to_string()).and_then(|res| {
+            match res.iter().position(|r| !matches!(r, VerificationResult::Valid(_))) {
+                None => Ok(()),
+                Some(i) => Err(format!("verify_nested: key {i} ({}) -> Invalid", signers[i].0.name)),
+            }
+        });
+        ok(ctx, rep, s, v, r);
+    }
+    // V7: each signature packet of the message as a detached signature over the payload
+    if let Message::Signed { reader, .. } = &m {
+        for j in 0..nsig {
+            if let Some(sig) = reader.signature(j) {
+                let sig = sig.clone();
+                let r = signers
+                    .iter()
+                    .find_map(|(sk, _)| sig.verify(&sk.pk.primary_key, p).ok())
+                    .ok_or("message signature packet verifies with no signer key as a detached signature");
+                ok(ctx, rep, s, "V7", r);
+            }
+        }
+    }
+    drop(m);
+    // verify_read on a fresh parse (drains the message itself)
+    if let Some(mut m2) = parsed(ctx, rep, s, v, "parse-error", open_msg(&out, &sess)) {
+        ok(ctx, rep, s, v, m2.verify_read(&signers[0].0.pk.primary_key).map(|_| ()));
+    }
+    rep.cfg.clear();
+}
+
+fn s5(ctx: &mut Ctx, env: &Env, cfgs: &[MsgCfg], rep: &mut Rep, k: &K, rng: &mut ChaCha8Rng, rot: u64) {
+    // base configuration in the four (type, output) combinations over two payload-rotations
+    let base = &cfgs[0];
+    s5_one(ctx, env, rep, k, base, false, rot % 2 == 1, rng, rot);
+    s5_one(ctx, env, rep, k, base, true, rot % 2 == 0, rng, rot);
+    // one rotating configuration
+    let c = &cfgs[1 + (rot as usize / 4) % (cfgs.len() - 1)];
+    s5_one(ctx, env, rep, k, c, rot % 2 == 0, (rot / 2) % 2 == 0, rng, rot);
+}
+
+// ------------------------------------------------------------------------------------------
+// S6 cleartext framework
+
+/// Trailing SP / TAB of every line removed, line endings left as they are.
+fn trim_then_join(text: &str) -> String {
+    let mut out = String::new();
+    for line in text.split_inclusive('\n') {
+        let (content, end) = if let Some(c) = line.strip_suffix("\r\n") {
+            (c, "\r\n")
+        } else if let Some(c) = line.strip_suffix('\n') {
+            (c, "\n")
+        } else {
+            (line, "")
+        };
+        out.push_str(content.trim_end_matches([' ', '\t']));
+        out.push_str(end);
+    }
+    out
+}
+
+fn v5(ctx: &mut Ctx, rep: &Rep, s: &str, m: &CleartextSignedMessage, keys: &[&K], rot: u64) {
+    // cross interface: a cleartext signature is a Text signature over the text with trailing
+    // SP / TAB of every line removed (RFC 9580 7.2; the trimmed form comes from the reference) and
+    // must verify as a detached signature over that form. Only for sign()/new(): with new_many()
+    // the caller's closure decides what is signed.
+    if s == "S6" {
+        if let Ok(text) = std::str::from_utf8(rep.p) {
+            let form = rfc::armor::csf_signed_form(text);
+            // Corner left to C16: when the trimmed content of a line ends in CR and the line ends
+            // in a bare LF ("\r \n"), "canonicalise then trim" and "trim then canonicalise" give
+            // different texts ("\r\r\n" / "\r\n"). Sign and verify side of the library agree with
+            // each other there (checked by V5); which form the RFC means is not C06's question.
+            if rfc::canon_text(trim_then_join(text).as_bytes()) == form.as_bytes() {
+                for sig in m.signatures() {
+                    ok(ctx, rep, s, "V1", sig.verify(&keys[0].pk.primary_key, form.as_bytes()));
+                }
+            } else {
+                ctx.tally("S6.V1-skipped(CR blank LF: trim/canonicalise order matters)", 1);
+            }
+        }
+    }
+    for k in keys {
+        ok(ctx, rep, s, "V5", m.verify(&k.pk.primary_key).map(|_| ()));
+    }
+    ok(ctx, rep, s, "V5", m.verify_many(|i, sig, data| sig.verify(&keys[i].pk, data)));
+
+    let Some(arm) = parsed(ctx, rep, s, "V5armor", "armor-error", m.to_armored_string(ArmorOptions::default())) else {
+        return;
+    };
+    let r = if rot % 2 == 0 {
+        CleartextSignedMessage::from_string(&arm)
+    } else {
+        CleartextSignedMessage::from_armor(std::io::Cursor::new(arm.as_bytes()))
+    };
+    let Some((m2, _)) = parsed(ctx, rep, s, "V5armor", "parse-error", r) else {
+        return;
+    };
+    // DESIGN section 5 #11 (open finding of C16): a text ending in a lone CR comes back without
+    // that CR. The armored artefact then carries a different text; a rejection that goes with
+    // exactly this loss is reported under one fixed signature.
+    let lost_cr = rep.p.last() == Some(&CR) && format!("{}\r", m2.text()) == m.text();
+    let mut check = |ctx: &mut Ctx, r: Result<(), pgp::errors::Error>| {
+        if lost_cr {
+            ctx.eval();
+            ctx.seen("matrix", format!("{s}->V5armor"));
+            match r {
+                Ok(()) => ctx.tally("S6.lost-trailing-CR.still-verified", 1),
+                Err(e) => {
+                    ctx.tally("S6.lost-trailing-CR.rejected", 1);
+                    ctx.violation(
+                        "C06/S6->V5armor/rejected/trailing-lone-CR",
+                        format!("cleartext message ({s}) over a text ending in a lone CR loses the CR in to_armored_string -> from_string and is then rejected: {e}; {}", rep.show()),
+                        rep.replay("S6->V5armor"),
+                    );
+                }
+            }
+        } else {
+            ok(ctx, rep, s, "V5armor", r);
+        }
+    };
+    for k in keys {
+        check(ctx, m2.verify(&k.pk.primary_key).map(|_| ()));
+    }
+    check(ctx, m2.verify_many(|i, sig, data| sig.verify(&keys[i].pk.primary_key, data)));
+}
+
+fn s6(ctx: &mut Ctx, env: &Env, rep: &mut Rep, k: &K, text: &str, rng: &mut ChaCha8Rng, rot: u64) {
+    let pw = Password::empty();
+    // sign(): hash algorithm is the key's default
+    rep.cfg = "cleartext sign()".into();
+    if let Some(m) = signed(ctx, rep, "S6", CleartextSignedMessage::sign(&mut *rng, text, &k.sk.primary_key, &pw)) {
+        v5(ctx, rep, "S6", &m, &[k], rot);
+    }
+    // new() with an explicit configuration
+    rep.cfg = "cleartext new()".into();
+    let r = mk_config(env, k, SignatureType::Text, rep.hash, rng, rot).and_then(|c| CleartextSignedMessage::new(text, c, &k.sk.primary_key, &pw));
+    if let Some(m) = signed(ctx, rep, "S6", r) {
+        v5(ctx, rep, "S6", &m, &[k], rot + 1);
+    }
+    // new_many(): the signer closure signs the text it is handed, with two keys
+    rep.cfg = "cleartext new_many()".into();
+    let other = if k.name == env.keys[0].name { &env.keys[1] } else { &env.keys[0] };
+    let h2 = HASHES[(rot as usize + 1) % 3];
+    let c1 = mk_config(env, k, SignatureType::Text, rep.hash, rng, rot);
+    let c2 = mk_config(env, other, SignatureType::Text, h2, rng, rot + 1);
+    let r = c1.and_then(|c1| c2.map(|c2| (c1, c2))).and_then(|(c1, c2)| {
+        CleartextSignedMessage::new_many(text, |t| {
+            Ok(vec![
+                c1.sign(&k.sk.primary_key, &pw, t.as_bytes())?,
+                c2.sign(&other.sk.primary_key, &pw, t.as_bytes())?,
+            ])
+        })
+    });
+    if let Some(m) = signed(ctx, rep, "S6many", r) {
+        ctx.eval();
+        v5(ctx, rep, "S6many", &m, &[k, other], rot);
+    }
+    rep.cfg.clear();
+}
+
+// ------------------------------------------------------------------------------------------
+// one payload x one key through S1..S6
+
+#[allow(clippy::too_many_arguments)]
+fn run_payload(ctx: &mut Ctx, env: &Env, cfgs: &[MsgCfg], family: &'static str, p: &[u8], ki: usize, rot: u64, rng: &mut ChaCha8Rng, hooks_on: bool) {
+    let k = &env.keys[ki];
+    let mut rep = Rep {
+        p,
+        cls: class(p),
+        key: k.name,
+        hash: HASHES[(rot as usize + ki) % 3],
+        cfg: String::new(),
+        family,
+        hooks: hooks_on,
+    };
+    ctx.seen("payload-class", rep.cls);
+    ctx.seen("key x hash", format!("{}/{:?}", k.name, rep.hash));
+    let replay = json!({"family": family, "payload": hexs(p), "key": k.name, "rot": rot});
+    let r = core::guard(|| {
+        s1_s4(ctx, env, &rep, k, rng, rot);
+        s5(ctx, env, cfgs, &mut rep, k, rng, rot);
+        if let Ok(text) = std::str::from_utf8(p) {
+            s6(ctx, env, &mut rep, k, text, rng, rot);
+        }
+    });
+    if let Err(pn) = r {
+        ctx.violation(format!("C06/sign-verify/panic/{}", pn.short_loc()), format!("panic: {} at {}; payload {:?} key {}", pn.msg, pn.loc, String::from_utf8_lossy(&p[..p.len().min(48)]), k.name), replay);
+    }
+}
+
+// ------------------------------------------------------------------------------------------
+// S7 / V6
+
+fn v6_checks(ctx: &mut Ctx, rep: &Rep, sk: &SignedSecretKey) {
+    let s = "S7";
+    ok(ctx, rep, s, "V6", sk.verify_bindings());
+    let pk = sk.to_public_key();
+    ok(ctx, rep, s, "V6", pk.verify_bindings());
+
+    if let Some(arm) = parsed(ctx, rep, s, "V6armor", "armor-error", sk.to_armored_string(ArmorOptions::default())) {
+        if let Some((k2, _)) = parsed(ctx, rep, s, "V6armor", "parse-error", SignedSecretKey::from_string(&arm)) {
+            ok(ctx, rep, s, "V6armor", k2.verify_bindings());
+        }
+    }
+    if let Some(arm) = parsed(ctx, rep, s, "V6armor", "armor-error", pk.to_armored_string(ArmorOptions::default())) {
+        if let Some((k2, _)) = parsed(ctx, rep, s, "V6armor", "parse-error", SignedPublicKey::from_string(&arm)) {
+            ok(ctx, rep, s, "V6armor", k2.verify_bindings());
+        }
+    }
+    if let Some(b) = parsed(ctx, rep, s, "V6bytes", "serialize-error", sk.to_bytes()) {
+        if let Some(k2) = parsed(ctx, rep, s, "V6bytes", "parse-error", SignedSecretKey::from_bytes(&b[..])) {
+            ok(ctx, rep, s, "V6bytes", k2.verify_bindings());
+        }
+    }
+    if let Some(b) = parsed(ctx, rep, s, "V6bytes", "serialize-error", pk.to_bytes()) {
+        if let Some(k2) = parsed(ctx, rep, s, "V6bytes", "parse-error", SignedPublicKey::from_bytes(&b[..])) {
+            ok(ctx, rep, s, "V6bytes", k2.verify_bindings());
+        }
+    }
+}
+
+fn describe_cert(ctx: &mut Ctx, sk: &SignedSecretKey) {
+    if !sk.details.direct_signatures.is_empty() {
+        ctx.seen("S7.self-signature-kinds", "direct-key");
+    }
+    if sk.details.users.iter().any(|u| !u.signatures.is_empty()) {
+        ctx.seen("S7.self-signature-kinds", "user-id-certification");
+    }
+    for sub in &sk.secret_subkeys {
+        for sig in &sub.signatures {
+            ctx.seen("S7.self-signature-kinds", "subkey-binding");
+            if sig.embedded_signature().is_some() {
+                ctx.seen("S7.self-signature-kinds", "embedded-primary-key-binding");
+            }
+        }
+    }
+}
+
+fn gen_key_with_uids(v6: bool, uids: &[String], rng: &mut ChaCha8Rng) -> Result<SignedSecretKey, String> {
+    let ver = if v6 { KeyVersion::V6 } else { KeyVersion::V4 };
+    let created = Timestamp::from_secs(1_700_000_000);
+    let kt = |sign: bool| {
+        if v6 {
+            if sign { KeyType::Ed25519 } else { KeyType::X25519 }
+        } else if sign {
+            KeyType::Ed25519Legacy
+        } else {
+            KeyType::ECDH(pgp::crypto::ecc_curve::ECCCurve::Curve25519Legacy)
+        }
+    };
+    let mut b = SecretKeyParamsBuilder::default();
+    b.version(ver).key_type(kt(true)).can_certify(true).can_sign(true).created_at(created).feature_seipd_v2(v6);
+    if let Some(first) = uids.first() {
+        b.primary_user_id(first.clone());
+        b.user_ids(uids[1..].to_vec());
+    }
+    let mut subs = vec![];
+    let mut sb = SubkeyParamsBuilder::default();
+    sb.version(ver).key_type(kt(true)).can_sign(true).created_at(created);
+    subs.push(sb.build().map_err(|e| e.to_string())?);
+    let mut sb = SubkeyParamsBuilder::default();
+    sb.version(ver).key_type(kt(false)).can_encrypt(pgp::composed::EncryptionCaps::All).created_at(created);
+    subs.push(sb.build().map_err(|e| e.to_string())?);
+    b.subkeys(subs);
+    let params = b.build().map_err(|e| e.to_string())?;
+    params.generate(rng).map_err(|e| e.to_string())
+}
+
+// ------------------------------------------------------------------------------------------
+// payload generators
+
+fn nth_abstract(mut idx: u64, len: usize) -> Vec<u8> {
+    // 0 = CR, 1 = LF, 2 = x
+    let mut s = vec![0u8; len];
+    for c in s.iter_mut() {
+        *c = (idx % 3) as u8;
+        idx /= 3;
+    }
+    s
+}
+
+/// Concrete instantiations of an abstract string over {CR, LF, x}.
+fn instantiate(abs: &[u8]) -> Vec<(&'static str, Vec<u8>)> {
+    let n = abs.len();
+    let line_start = |i: usize| i == 0 || abs[i - 1] == 1;
+    // x directly in front of a line end (LF or CR LF) or at the end of the text
+    let before_eol = |i: usize| i + 1 == n || abs[i + 1] == 1 || (abs[i + 1] == 0 && i + 2 < n && abs[i + 2] == 1);
+    let build = |f: &dyn Fn(usize) -> &'static [u8]| -> Vec<u8> {
+        let mut o = Vec::with_capacity(n + 4);
+        for (i, a) in abs.iter().enumerate() {
+            match a {
+                0 => o.push(CR),
+                1 => o.push(LF),
+                _ => o.extend_from_slice(f(i)),
+            }
+        }
+        o
+    };
+    let mut out: Vec<(&'static str, Vec<u8>)> = vec![
+        ("a", build(&|_| b"a")),
+        ("dash-all", build(&|_| b"-")),
+        ("dash-line-start", build(&|i| if line_start(i) { b"-" } else { b"a" })),
+        ("sp-before-eol", build(&|i| if before_eol(i) { b" " } else { b"a" })),
+        ("tab-before-eol", build(&|i| if before_eol(i) { b"\t" } else { b"a" })),
+        ("sp-all", build(&|_| b" ")),
+        ("sp-tab-mix", build(&|i| if i % 2 == 0 { b"\t" } else { b" " })),
+        ("nul", build(&|_| b"\0")),
+        ("nul-a", build(&|i| if i % 2 == 0 { b"\0" } else { b"a" })),
+        ("e-acute", build(&|_| "\u{e9}".as_bytes())),
+        ("dash-sp", build(&|i| if line_start(i) { b"-" } else if before_eol(i) { b" " } else { b"a" })),
+        ("non-utf8", build(&|i| if i % 2 == 0 { b"\xff" } else { b"\xc3" })),
+    ];
+    let mut seen = HashSet::new();
+    out.retain(|(_, p)| seen.insert(p.clone()));
+    out
+}
+
+fn random_payload(rng: &mut ChaCha8Rng, i: u64) -> Vec<u8> {
+    let sizes = [600usize, 1500, 8192 + 700, 3 * 8192 + 5, 65536, 0];
+    let mut total = sizes[(i % 6) as usize];
+    if total == 0 {
+        total = rng.gen_range(1..=65536);
+    }
+    let binary = i % 3 == 2;
+    let mut s: Vec<u8> = (0..total)
+        .map(|_| {
+            if binary {
+                match rng.gen_range(0..10) {
+                    0 => CR,
+                    1 => LF,
+                    _ => rng.gen::<u8>(),
+                }
+            } else {
+                match rng.gen_range(0..16) {
+                    0 => CR,
+                    1 => LF,
+                    2 => b' ',
+                    3 => b'\t',
+                    4 => b'-',
+                    5 => 0,
+                    _ => b'a' + rng.gen_range(0..26u8),
+                }
+            }
+        })
+        .collect();
+    for edge in [511usize, 512, 513, 1023, 1024, 1025, 8191, 8192, 8193, 16383, 16384, 65535] {
+        if edge >= 1 && edge < s.len() {
+            match rng.gen_range(0..5) {
+                0 => s[edge] = CR,
+                1 => s[edge] = LF,
+                2 => {
+                    s[edge - 1] = CR;
+                    s[edge] = LF
+                }
+                3 => {
+                    s[edge - 1] = b' ';
+                    s[edge] = LF
+                }
+                _ => {}
+            }
+        }
+    }
+    // tail: trailing CR / blank / nothing
+    match rng.gen_range(0..6) {
+        0 => s.push(CR),
+        1 => s.push(b' '),
+        2 => s.extend_from_slice(b"\r\n"),
+        3 => s.extend_from_slice(b"\n-"),
+        _ => {}
+    }
+    s
+}
+
+// ------------------------------------------------------------------------------------------
 
 pub fn run(ctx: &mut Ctx) {
-    ctx.inconclusive("monitor not built yet");
+    ctx.exhaustive = true;
+    let env = Env {
+        keys: vec![
+            K::new("v4-Ed25519Legacy", &Spec::simple(false, Alg::Ed25519Legacy, Some(Alg::EcdhCv25519))),
+            K::new("v6-Ed25519", &Spec::simple(true, Alg::Ed25519, Some(Alg::X25519))),
+            K::new("v4-EcdsaP256", &Spec::simple(false, Alg::EcdsaP256, None)),
+            K::new("v4-Rsa2048", &Spec::simple(false, Alg::Rsa2048, None)),
+        ],
+        ts: Timestamp::from_secs(1_700_000_000),
+    };
+    let cfgs = msg_cfgs();
+    ctx.extra.insert("matrix_cells_expected".into(), json!(CELLS.to_vec()));
+
+    // ----------------------------------------------------------------------------------
+    // Family X: every string over {CR, LF, x} up to the tier length, each instantiated with the
+    // x-patterns; both cheap keys always, P-256 / RSA on a ration.
+    let maxlen = ctx.qt(6usize, 8usize);
+    let mut gi = 0u64;
+    for len in 0..=maxlen {
+        let nstr = 3u64.pow(len as u32);
+        for si in 0..nstr {
+            let g = gi;
+            gi += 1;
+            if !ctx.mine() {
+                continue;
+            }
+            let abs = nth_abstract(si, len);
+            core::describe_case(&format!("X len={len} si={si}"));
+            for (vi, (vname, p)) in instantiate(&abs).into_iter().enumerate() {
+                ctx.cover(&("X", &p));
+                ctx.seen("X.instantiation", vname);
+                let rot = g.wrapping_mul(13).wrapping_add(vi as u64);
+                // ration of the slow keys: hashed so that it does not line up with the shard
+                // assignment (case id mod 16)
+                let ration = core::hash64(&("ration-X", g));
+                let mut kis = vec![0usize, 1];
+                if ration % 8 == 3 || len <= 2 {
+                    kis.push(2);
+                }
+                if (ration >> 8) % 64 == 5 || len <= 1 {
+                    kis.push(3);
+                }
+                for ki in kis {
+                    let mut rng = ctx.rng("X", rot * 4 + ki as u64);
+                    run_payload(ctx, &env, &cfgs, "X", &p, ki, rot + ki as u64, &mut rng, false);
+                }
+                if si == nstr / 2 && vi == 3 {
+                    ctx.sample(json!({"family": "X", "abstract": format!("{abs:?}"), "variant": vname, "payload": hexs(&p), "class": class(&p)}));
+                }
+            }
+        }
+    }
+
+    // ----------------------------------------------------------------------------------
+    // Family E: every pattern over {CR, LF, a} of length 1..3 at every alignment across the 512 /
+    // 1024 (NormalizedReader window) and 8192 (literal / signed-message reader buffers) edges.
+    let mut ei = 0u64;
+    for edge in [512usize, 1024, 8192] {
+        for len in 1..=3usize {
+            for si in 0..3u64.pow(len as u32) {
+                let e = ei;
+                ei += 1;
+                if !ctx.mine() {
+                    continue;
+                }
+                core::describe_case(&format!("E edge={edge} len={len} si={si}"));
+                let pat: Vec<u8> = nth_abstract(si, len).iter().map(|a| [CR, LF, b'a'][*a as usize]).collect();
+                for shift in 0..=len {
+                    let mut p = vec![b'x'; edge - shift];
+                    p.extend_from_slice(&pat);
+                    if (e + shift as u64) % 2 == 0 {
+                        p.extend_from_slice(b"yy");
+                    }
+                    ctx.cover(&("E", edge, shift, &pat, p.len()));
+                    let rot = e * 4 + shift as u64;
+                    let ki = (rot % 2) as usize;
+                    let mut rng = ctx.rng("E", rot);
+                    run_payload(ctx, &env, &cfgs, "E", &p, ki, rot, &mut rng, true);
+                }
+                if e == 7 {
+                    ctx.sample(json!({"family": "E", "edge": edge, "pattern": hexs(&pat), "alignments": len + 1}));
+                }
+            }
+        }
+    }
+
+    // ----------------------------------------------------------------------------------
+    // Family R: random payloads up to 64 KiB (text-like and arbitrary bytes), CR / LF / blanks
+    // forced around the 512 / 1024 / 8192 / 16384 edges.
+    let nrand = ctx.qt(192u64, 2400u64);
+    for i in 0..nrand {
+        if !ctx.mine() {
+            continue;
+        }
+        core::describe_case(&format!("R i={i}"));
+        let mut rng = ctx.rng("R", i);
+        let p = random_payload(&mut rng, i);
+        ctx.cover(&("R", i, p.len()));
+        ctx.seen("R.size-bucket", format!("2^{}", (p.len().max(1) as f64).log2().floor() as u32));
+        let ration = core::hash64(&("ration-R", i));
+        let mut kis = vec![(ration % 2) as usize];
+        if (ration >> 4) % 6 == 1 {
+            kis.push(2);
+        }
+        if (ration >> 12) % 24 == 3 {
+            kis.push(3);
+        }
+        for ki in kis {
+            run_payload(ctx, &env, &cfgs, "R", &p, ki, i * 7 + ki as u64, &mut rng, true);
+        }
+        if i < 2 {
+            ctx.sample(json!({"family": "R", "i": i, "len": p.len(), "class": class(&p), "head": hexs(&p[..p.len().min(64)])}));
+        }
+    }
+
+    // ----------------------------------------------------------------------------------
+    // Family K: certificate self-signatures (S7) through verify_bindings (V6).
+    let zoo_specs: Vec<(&'static str, Spec)> = {
+        let mut v = vec![];
+        let mut s = Spec::simple(false, Alg::Ed25519Legacy, Some(Alg::EcdhCv25519));
+        s.sign_sub = Some(Alg::Ed25519Legacy);
+        s.uids = 3;
+        v.push(("zoo-v4-Ed25519Legacy+sign+enc-u3", s));
+        let mut s = Spec::simple(true, Alg::Ed25519, Some(Alg::X25519));
+        s.sign_sub = Some(Alg::Ed25519);
+        s.uids = 2;
+        v.push(("zoo-v6-Ed25519+sign+enc-u2", s));
+        let mut s = Spec::simple(true, Alg::Ed25519, None);
+        s.uids = 0;
+        v.push(("zoo-v6-Ed25519-u0", s));
+        let mut s = Spec::simple(false, Alg::EcdsaP256, Some(Alg::EcdhP256));
+        s.sign_sub = Some(Alg::EcdsaP256);
+        v.push(("zoo-v4-EcdsaP256+sign+enc", s));
+        let mut s = Spec::simple(true, Alg::EcdsaP256, Some(Alg::EcdhP256));
+        s.sign_sub = Some(Alg::Ed25519);
+        v.push(("zoo-v6-EcdsaP256+Ed25519sign+enc", s));
+        let mut s = Spec::simple(true, Alg::Ed448, Some(Alg::X448));
+        s.sign_sub = Some(Alg::Ed448);
+        v.push(("zoo-v6-Ed448+sign+enc", s));
+        v.push(("zoo-v4-Rsa2048+Rsa2048", Spec::simple(false, Alg::Rsa2048, Some(Alg::Rsa2048))));
+        v.push(("zoo-v6-Rsa2048+Rsa2048", Spec::simple(true, Alg::Rsa2048, Some(Alg::Rsa2048))));
+        v
+    };
+    for (name, spec) in &zoo_specs {
+        if !ctx.mine() {
+            continue;
+        }
+        core::describe_case(&format!("K {name}"));
+        let rep = Rep { p: name.as_bytes(), cls: "other", key: name, hash: HashAlgorithm::Sha256, cfg: "zoo certificate".into(), family: "K", hooks: false };
+        let replay = json!({"family": "K", "key": name});
+        let r = core::guard(|| {
+            let mut sk = zoo::key(spec, 0);
+            ctx.cover(&("K", name));
+            describe_cert(ctx, &sk);
+            v6_checks(ctx, &rep, &sk);
+            // low-level: a direct-key self-signature made with SignatureConfig::sign_key
+            let k = K { name, pk: sk.to_public_key(), sk: sk.clone() };
+            let mut rng = ctx.rng("K", 0);
+            let r = mk_config(&env, &k, SignatureType::Key, HashAlgorithm::Sha512, &mut rng, 1)
+                .and_then(|c| c.sign_key(&sk.primary_key, &Password::empty(), &k.pk.primary_key));
+            if let Some(sig) = signed(ctx, &rep, "S7", r) {
+                ok(ctx, &rep, "S7", "V6", sig.verify_key(&k.pk.primary_key));
+                sk.details.direct_signatures.push(sig);
+                ctx.seen("S7.self-signature-kinds", "direct-key(sign_key)");
+                v6_checks(ctx, &rep, &sk);
+            }
+        });
+        if let Err(pn) = r {
+            ctx.violation(format!("C06/S7/panic/{}", pn.short_loc()), format!("panic: {} at {}; key {name}", pn.msg, pn.loc), replay);
+        }
+    }
+    // certificates over hostile user ids
+    let nk = ctx.qt(60u64, 600u64);
+    for i in 0..nk {
+        if !ctx.mine() {
+            continue;
+        }
+        core::describe_case(&format!("K uid i={i}"));
+        let mut rng = ctx.rng("Kuid", i);
+        // user ids drawn from the payload alphabet (valid UTF-8 only)
+        let nuid = 1 + (i % 3) as usize;
+        let uids: Vec<String> = (0..nuid)
+            .map(|j| {
+                let len = rng.gen_range(0..=12usize);
+                let alpha = ["\r", "\n", "a", "-", " ", "\t", "\0", "\u{e9}", "\u{2028}", "<", ">", "@"];
+                let mut s: String = (0..len).map(|_| alpha[rng.gen_range(0..alpha.len())]).collect();
+                s.push_str(&format!("{j}"));
+                s
+            })
+            .collect();
+        let v6 = i % 2 == 1;
+        let name = "generated-hostile-uids";
+        let joined = uids.join("|");
+        let rep = Rep { p: joined.as_bytes(), cls: class(joined.as_bytes()), key: name, hash: HashAlgorithm::Sha256, cfg: format!("v6={v6} uids={uids:?}"), family: "K", hooks: false };
+        let replay = json!({"family": "K", "i": i, "uids": uids, "v6": v6});
+        let r = core::guard(|| match gen_key_with_uids(v6, &uids, &mut rng) {
+            Ok(sk) => {
+                ctx.cover(&("Kuid", &uids, v6));
+                describe_cert(ctx, &sk);
+                v6_checks(ctx, &rep, &sk);
+            }
+            Err(e) => {
+                signed::<(), _>(ctx, &rep, "S7", Err(e));
+            }
+        });
+        if let Err(pn) = r {
+            ctx.violation(format!("C06/S7/panic/{}", pn.short_loc()), format!("panic: {} at {}; uids {uids:?}", pn.msg, pn.loc), replay);
+        }
+        if i == 0 {
+            ctx.sample(json!({"family": "K", "uids": uids, "v6": v6}));
+        }
+    }
 }
